@@ -247,14 +247,25 @@ impl PendingSubscriptionSink {
 		//
 		// The same message is sent twice here because one is sent directly to the transport layer and
 		// the other one is sent internally to accept the subscription.
-		self.inner.send(response.to_json()).await.map_err(|_| PendingSubscriptionAcceptError)?;
+		let permit = self.inner.reserve().await.map_err(|_| PendingSubscriptionAcceptError)?;
+		let (tx, rx) = mpsc::channel(1);
+		{
+			// The response is queued and the subscription is registered in one step as far as an unsubscribe call can
+			// tell: a client that unsubscribes the moment it has read the subscription ID must find the subscription.
+			let mut subscribers = self.subscribers.lock();
+			permit.send(response.to_json());
+			if success {
+				subscribers.insert(self.uniq_sub.clone(), (self.inner.clone(), rx));
+			}
+		}
 		#[cfg(jsonrpsee_verif)]
 		crate::verif::preempt("accept:response-queued").await;
-		self.subscribe.send(response).map_err(|_| PendingSubscriptionAcceptError)?;
+		if self.subscribe.send(response).is_err() {
+			self.subscribers.lock().remove(&self.uniq_sub);
+			return Err(PendingSubscriptionAcceptError);
+		}
 
 		if success {
-			let (tx, rx) = mpsc::channel(1);
-			self.subscribers.lock().insert(self.uniq_sub.clone(), (self.inner.clone(), rx));
 			let unsubscribe = IsUnsubscribed(tx);
 			Ok(SubscriptionSink {
 				inner: self.inner,
